@@ -224,14 +224,14 @@ def codeShapes : List OpShape := [
   S "UpdateChainState"         "persist/sqlite/consensus.go:562; index/update.go:54",
   S "ResetChainState"          "persist/sqlite/consensus.go:56",
   -- managers: store call, then the mirror
-  M "M.Commit"          "host/contracts/contracts.go:419 (ReviseContract :427, setSectorRoots :435)" [.cacheWrite],
+  M "M.Commit"          "host/contracts/contracts.go:420 (ReviseContract :427, setSectorRoots :435)" [.cacheWrite],
   M "M.ReviseV2Contract" "host/contracts/manager.go:181 (store :231, setSectorRoots :236)" [.cacheWrite],
   M "M.RenewContract"   "host/contracts/manager.go:151 (store :172, setSectorRoots :175)" [.cacheWrite],
   M "M.RenewV2Contract" "host/contracts/manager.go:279 (store :331, setSectorRoots :334)" [.cacheWrite],
   S "M.AddContract"     "host/contracts/manager.go:136",
   S "M.AddV2Contract"   "host/contracts/manager.go:243",
-  M "A.Credit"          "host/accounts/accounts.go:115 (store :133, balances :137)" [.memWrite],
-  M "A.BudgetCommit"    "host/accounts/budget.go:123 (DebitAccount :130, balances :141-154)" [.memWrite],
+  M "A.Credit"          "host/accounts/accounts.go:114 (store :133, balances :139)" [.memWrite],
+  M "A.BudgetCommit"    "host/accounts/budget.go:122 (DebitAccount :130, balances :141-154)" [.memWrite],
   M "W.Register"        "webhooks/webhooks.go:155 (store :165, hooks/scopes :179-181)" [.memWrite, .memWrite],
   M "W.Update"          "webhooks/webhooks.go:207 (store :215, hooks/scopes :229-233)" [.memWrite, .memWrite],
   M "W.Remove"          "webhooks/webhooks.go:186 (store :194, hooks/scopes :201-202)" [.memWrite, .memWrite]
@@ -245,8 +245,8 @@ def deviantShapes : List OpShape := [
   { name := "P.Update", src := "host/settings/pin/pin.go:227 (m.settings = p :247, store.UpdatePinnedSettings :249)",
     kind := .single, pre := [.memWrite], post := [], mirrored := true },
   -- syncDB: the batch commits (update.go:54-82), then three ProcessActions calls that read and may write the
-  -- database (:84-90, each returns early on error), and only then `m.index = index` (:92-94)
-  { name := "I.SyncDB", src := "index/update.go:25 (UpdateChainState :54, ProcessActions :84-90, m.index = index :93)",
+  -- database (:78-84, each returns early on error), and only then `m.index = index` (:86-88)
+  { name := "I.SyncDB", src := "index/update.go:25 (UpdateChainState :54, ProcessActions :78-84, m.index = index :87)",
     kind := .indexer, pre := [], post := [.beginTx, .stmt, .commit, .memWrite], mirrored := true }
 ]
 
@@ -484,13 +484,13 @@ def webhooksCtor : Ctor :=
   { name := "webhooks.NewManager", src := "webhooks/webhooks.go:349 (`_, err := store.Webhooks()` :359)", loads := false, writes := [] }
 
 def codeCtors : List Ctor := [
-  { name := "contracts.NewManager", src := "host/contracts/manager.go:386 (SectorRoots :408, V2SectorRoots :413)", loads := true, writes := [] },
+  { name := "contracts.NewManager", src := "host/contracts/manager.go:386 (SectorRoots :409, V2SectorRoots :414)", loads := true, writes := [] },
   { name := "storage.NewVolumeManager", src := "host/storage/storage.go:973 (loadVolumes :107)", loads := true, writes := ["SetAvailable"] },
   webhooksCtor,
   { name := "settings.NewConfigManager", src := "host/settings/settings.go:428 (store.Settings :462)", loads := true, writes := [] },
   { name := "pin.NewManager", src := "host/settings/pin/pin.go:311 (store.PinnedSettings :338)", loads := true, writes := [] },
-  { name := "accounts.NewManager", src := "host/accounts/accounts.go:190 (empty map; balances are read through)", loads := true, writes := [] },
-  { name := "sqlite.OpenDatabase", src := "persist/sqlite/store.go:321, init.go:59 (version = target: nothing to do)", loads := true, writes := [] }
+  { name := "accounts.NewManager", src := "host/accounts/accounts.go:186 (empty map; balances are read through)", loads := true, writes := [] },
+  { name := "sqlite.OpenDatabase", src := "persist/sqlite/store.go:319, init.go:59 (version = target: nothing to do)", loads := true, writes := [] }
 ]
 
 /-- a constructor may only write `SetAvailable` (volume files found / not found) -/
